@@ -39,9 +39,13 @@ class SymTimedelta:
     """normalised timedelta with symbolic components, or an un-normalised one built from float seconds"""
 
     def __init__(self, days=0, seconds=0, microseconds=0, float_seconds=None, total_us=None):
-        self.days, self.seconds, self.microseconds = days, seconds, microseconds
         self.float_seconds = float_seconds
         self.total_us = total_us      # un-normalised integer form (built from symbolic integer keyword arguments)
+        if total_us is not None:
+            # the attributes a timedelta shows are always the normalised ones
+            days, rem = divmod(total_us, US_PER_DAY)
+            seconds, microseconds = divmod(rem, 10 ** 6)
+        self.days, self.seconds, self.microseconds = days, seconds, microseconds
 
     def __radd__(self, other):
         if _real_isinstance(other, _dt.datetime) and self.float_seconds is not None:
@@ -73,6 +77,56 @@ class SymTimedelta:
 
     def total_seconds(self):
         return SymFloat.from_any(self._us()) / 1000000.0
+
+    @staticmethod
+    def _us_of(other):
+        if _real_isinstance(other, SymTimedelta):
+            return other._us()
+        if _real_isinstance(other, _dt.timedelta):
+            return (other.days * 86400 + other.seconds) * 10 ** 6 + other.microseconds
+        return None
+
+    @staticmethod
+    def _normalised(us):
+        days, rem = divmod(us, US_PER_DAY)
+        secs, micro = divmod(rem, 10 ** 6)
+        return SymTimedelta(days, secs, micro)
+
+    def __add__(self, other):
+        o = SymTimedelta._us_of(other)
+        return NotImplemented if o is None else SymTimedelta._normalised(self._us() + o)
+
+    def __sub__(self, other):
+        o = SymTimedelta._us_of(other)
+        return NotImplemented if o is None else SymTimedelta._normalised(self._us() - o)
+
+    def __rsub__(self, other):
+        o = SymTimedelta._us_of(other)
+        return NotImplemented if o is None else SymTimedelta._normalised(o - self._us())
+
+    def __neg__(self):
+        return SymTimedelta._normalised(-self._us())
+
+    def __mul__(self, k):
+        if _real_isinstance(k, (int, SymInt)) and not _real_isinstance(k, bool):
+            return SymTimedelta._normalised(self._us() * k)
+        return NotImplemented
+
+    __rmul__ = __mul__
+
+    def _cmp(self, other, op):
+        o = SymTimedelta._us_of(other)
+        if o is None:
+            return NotImplemented
+        return getattr(self._us(), op)(o)
+
+    def __lt__(self, o): return self._cmp(o, "__lt__")
+    def __le__(self, o): return self._cmp(o, "__le__")
+    def __gt__(self, o): return self._cmp(o, "__gt__")
+    def __ge__(self, o): return self._cmp(o, "__ge__")
+    def __eq__(self, o): return self._cmp(o, "__eq__")
+    def __ne__(self, o): return self._cmp(o, "__ne__")
+    __hash__ = None
 
     def __truediv__(self, other):
         if _real_isinstance(other, _dt.timedelta):
